@@ -778,6 +778,13 @@ def _eval_readtop(ctx, case):
 
 # ============================================================================ C16: typed lines, sections, files
 
+def _all_lines(section):
+    """every line object of a section, comment / preprocessor lines included: the private list when it is there under
+    its name, else the public `lines` (a new list of the SAME line objects)"""
+    v = getattr(section, "_lines", None)
+    return v if v is not None else section.lines
+
+
 def sec_lines(text):
     """independent reading: section name -> raw physical lines that belong to it (repeated names gathered)"""
     secs, cur = {}, None
@@ -1073,7 +1080,7 @@ def _eval_typed(ctx, case):
                 if c[0] == "g":
                     _, sec, idx, at = c
                     try:
-                        line = itp[sec]._lines[idx]
+                        line = _all_lines(itp[sec])[idx]
                         with warnings.catch_warnings():
                             warnings.simplefilter("ignore")
                             outs.append(["K", canon_val(getattr(line, at))])
@@ -1084,7 +1091,7 @@ def _eval_typed(ctx, case):
                 elif c[0] == "s":
                     _, sec, idx, at, v = c
                     try:
-                        line = itp[sec]._lines[idx]
+                        line = _all_lines(itp[sec])[idx]
                         pv = py_val(v)
                         with warnings.catch_warnings(record=True) as w:
                             warnings.simplefilter("always")
@@ -1199,7 +1206,7 @@ def _eval_section(ctx, case):
     try:
         s = ItpSection(case["name"], list(case["lines"]))
         res = ["K", str(s), repr(s), len(s), len(s.lines), s.section_name]
-        assert s.lines is not s._lines
+        assert getattr(s, "_lines", None) is None or s.lines is not s._lines
     except AssertionError:
         raise
     except Exception as ex:      # noqa: BLE001
